@@ -162,6 +162,8 @@ func (r *rw) scalarReplace(pk *packages.Package, file *ast.File) {
 		bidx  int
 	}
 	aliases := map[*types.Var]*aliasDef{}
+	addrOf := map[*ast.Ident]bool{}  // `&rec` inside an alias definition
+	viaAddr := map[*types.Var]bool{} // aliases that are pointers to a by-value record
 	ast.Inspect(file, func(n ast.Node) bool {
 		blk, ok := n.(*ast.BlockStmt)
 		if !ok {
@@ -192,12 +194,24 @@ func (r *rw) scalarReplace(pk *packages.Package, file *ast.File) {
 						e = ast.Unparen(c.Args[0])
 					}
 				}
+				byAddr := false
+				if u, isU := e.(*ast.UnaryExpr); isU && u.Op == token.AND {
+					e, byAddr = ast.Unparen(u.X), true // (*T)(&(rec)): a pointer receiver bound to a record held by value
+				}
 				sid, ok := e.(*ast.Ident)
 				if !ok {
 					continue
 				}
 				src, _ := info.Uses[sid].(*types.Var)
-				if src == nil || !types.Identical(src.Type(), av.Type()) {
+				if src == nil {
+					continue
+				}
+				if byAddr {
+					if !types.Identical(types.NewPointer(src.Type()), av.Type()) {
+						continue
+					}
+					addrOf[sid] = true
+				} else if !types.Identical(src.Type(), av.Type()) {
 					continue
 				}
 				bidx := -1
@@ -212,6 +226,9 @@ func (r *rw) scalarReplace(pk *packages.Package, file *ast.File) {
 					continue
 				}
 				aliases[av] = &aliasDef{v: av, of: src, spec: vs, decl: ds, idx: k, blank: as, bidx: bidx}
+				if byAddr {
+					viaAddr[av] = true
+				}
 			}
 		}
 		return true
@@ -242,7 +259,7 @@ func (r *rw) scalarReplace(pk *packages.Package, file *ast.File) {
 		if c == nil {
 			continue
 		}
-		if !c.ptr {
+		if !c.ptr && !viaAddr[av] {
 			bad[c] = "aliased by value"
 		}
 		c.alias = append(c.alias, av)
@@ -289,7 +306,7 @@ func (r *rw) scalarReplace(pk *packages.Package, file *ast.File) {
 	}
 	for _, c := range cands {
 		if bad[c] == "" {
-			if why := mutatedIn(info, enclosingFunc(file, c.stmt.Pos()), c.v); why != "" {
+			if why := mutatedInExcept(info, enclosingFunc(file, c.stmt.Pos()), c.v, addrOf); why != "" {
 				bad[c] = why
 			}
 		}
@@ -537,4 +554,43 @@ func (r *rw) foldConstIfs(pk *packages.Package, file *ast.File) {
 		r.did = append(r.did, fmt.Sprintf("round %d: `if %s` at %s decided (the flag is the constant %v here)", r.round, r.text(is.Cond), r.p.Pos(is.Pos()), val))
 		return false
 	})
+}
+
+// mutatedInExcept: mutatedIn, not counting the address-of occurrences listed in except.
+func mutatedInExcept(info *types.Info, n ast.Node, v *types.Var, except map[*ast.Ident]bool) string {
+	if n == nil {
+		return "not inside a function"
+	}
+	why := ""
+	isV := func(e ast.Expr) *ast.Ident {
+		i, ok := ast.Unparen(e).(*ast.Ident)
+		if ok && info.Uses[i] == types.Object(v) {
+			return i
+		}
+		return nil
+	}
+	ast.Inspect(n, func(n ast.Node) bool {
+		switch x := n.(type) {
+		case *ast.AssignStmt:
+			for _, l := range x.Lhs {
+				if isV(l) != nil {
+					why = "the variable is reassigned"
+				}
+			}
+		case *ast.IncDecStmt:
+			if isV(x.X) != nil {
+				why = "the variable is reassigned"
+			}
+		case *ast.UnaryExpr:
+			if id := isV(x.X); x.Op == token.AND && id != nil && !except[id] {
+				why = "the address of the variable is taken"
+			}
+		case *ast.RangeStmt:
+			if (x.Key != nil && isV(x.Key) != nil) || (x.Value != nil && isV(x.Value) != nil) {
+				why = "the variable is reassigned"
+			}
+		}
+		return true
+	})
+	return why
 }
